@@ -217,13 +217,16 @@ theorem C09_json (bytes : Bytes) (hb : ∀ x ∈ bytes, x < 256) (ms : List Span
   obtain ⟨m, hm, rfl⟩ := List.mem_map.mp hsm
   exact ⟨subOf_decodes bytes hb m, (_hin m hm).1, (_hin m hm).2⟩
 
-/-- Full statement "the JSON printer reports every delivered event (never aborts)", for every well-formed stream
-and every matcher that is sane on each haystack it is shown. -/
-def C09_json_total_full : Prop :=
-  ∀ (sc : SCfg) (jc : JsonCfg) (find : Oracle) (evs : List Event) (bc : Nat),
-    (∀ ev ∈ evs, EventOk sc find ev) → (jsonSearch sc jc find evs bc).panicked = false
+/-- **The JSON printer reports every delivered event (never aborts)**: for every well-formed stream and every
+matcher that is sane on each haystack it is shown, `SubMatches::new` never slices out of range — in single-line
+mode because the haystack ends with the line, in multi-line mode because (since the repair of F18, 55c3d7e) a
+re-found match is clamped to the end of the reported lines. Full strength, no guard. -/
+theorem C09_json_total (sc : SCfg) (jc : JsonCfg) (find : Oracle)
+    (evs : List Event) (bc : Nat) (hall : ∀ ev ∈ evs, EventOk sc find ev) :
+    (jsonSearch sc jc find evs bc).panicked = false :=
+  jsonSearch_no_panic sc jc find evs bc hall
 
-/-- The matcher of the witness: `(?s)a.{129}\z|a` seen through `find_at(hay, 0)` — on a haystack of exactly 130
+/-- The matcher of the F18 witness: `(?s)a.{129}\z|a` seen through `find_at(hay, 0)` — on a haystack of exactly 130
 bytes the first alternative matches all of it, otherwise only the `a`. -/
 def lookaheadCutMatcher : Oracle :=
   fun hay p => if p == 0 then (if hay.length == 130 then some ⟨0, 130⟩ else some ⟨0, 1⟩) else none
@@ -234,45 +237,25 @@ theorem lookaheadCutMatcher_sane (hay : Bytes) (h : 1 ≤ hay.length) : Sane (lo
     | (split at hm <;> injection hm with hm <;> subst hm <;> simp_all <;> omega)
     | simp at hm
 
-/-- FALSE on the current tree (finding F18): in multi-line mode the block `a\n` of a buffer with more than 128
-further bytes is re-searched in a haystack cut 128 bytes after the block; the matcher's answer there ends
-beyond the block and `SubMatches::new` slices out of range. -/
-theorem C09_json_total_full_fails : ¬ C09_json_total_full := by
-  intro h
+/-- Regression witness for F18 (before 55c3d7e the code panicked here): the block `a\n` of a buffer with more than
+128 further bytes is re-searched in a haystack cut 128 bytes after the block; the matcher's answer `[0,130)` ends
+beyond the block and is reported clamped, as the submatch `[0,2)` = `a\n`. -/
+example :
+    findIterInContext { multiLine := true } lookaheadCutMatcher (97 :: 10 :: List.replicate 300 98) 0 2 = [⟨0, 2⟩] := by
   have hlen : (97 :: 10 :: List.replicate 300 98).length = 302 := by
     simp only [List.length_cons, List.length_replicate]
-  have hsl : (slice (97 :: 10 :: List.replicate 300 98) 0 2).length = 2 := by
-    rw [slice_length _ _ _ (by omega)]
-  generalize (97 :: 10 :: List.replicate 300 98) = buf at hlen hsl h
+  generalize (97 :: 10 :: List.replicate 300 98) = buf at hlen
   have hcut : (cutHaystack { multiLine := true } buf 2).length = 130 := by
     simp only [cutHaystack, ↓reduceIte, hlen, maxLookAhead]
     have : (302 - 2 ≥ 128) := by omega
     simp only [this, ↓reduceIte, List.length_take, hlen]
     omega
-  have hfind : findIterInContext { multiLine := true } lookaheadCutMatcher buf 0 2 = [⟨0, 130⟩] := by
-    rw [findIterInContext_eq, hcut, show (130 : Nat) + 2 = 130 + 1 + 1 from rfl, iterGo_succ]
-    have hstep : ∀ atEnd, step 2 atEnd [] ⟨0, 130⟩ = ([⟨0, 130⟩], true) := by
-      intro atEnd; simp [step, beyondRange]
-    simp [lookaheadCutMatcher, hcut, hstep]
-    apply iterGo_find_none
-    simp [lookaheadCutMatcher]
-  have := h { multiLine := true } {} lookaheadCutMatcher [.matched buf 0 2 0 (some 1)] 302 (by
-      intro ev hev
-      simp only [List.mem_singleton] at hev
-      subst hev
-      refine ⟨by omega, by omega, ?_⟩
-      apply lookaheadCutMatcher_sane
-      omega)
-  revert this
-  simp [jsonSearch, jsonBegin, jsonEvents, jsonEvent, jsonMatched, recordMatchesJson, hfind, shiftSpans,
-    subMatches, hsl, jsonFinish, JsonState.writeBegin]
-
-/-- **No abort in single-line mode**: there the haystack ends with the line, so a sane matcher's matches can
-always be sliced out of the line. -/
-theorem C09_json_total_partial (sc : SCfg) (jc : JsonCfg) (find : Oracle) (hml : sc.multiLine = false)
-    (evs : List Event) (bc : Nat) (hall : ∀ ev ∈ evs, EventOk sc find ev) :
-    (jsonSearch sc jc find evs bc).panicked = false :=
-  jsonSearch_no_panic sc jc find hml evs bc hall
+  rw [findIterInContext_eq, hcut, show (130 : Nat) + 2 = 130 + 1 + 1 from rfl, iterGo_succ]
+  have hstep : ∀ atEnd, step 2 atEnd [] ⟨0, 130⟩ = ([⟨0, 2⟩], true) := by
+    intro atEnd; simp [step, beyondRange]
+  simp [lookaheadCutMatcher, hcut, hstep]
+  apply iterGo_find_none
+  simp [lookaheadCutMatcher]
 
 /-- non-vacuity of the guard: the F6 witness (`$` on `abc`) is a well-formed single-line event with a sane
 matcher, and its message carries the submatch `[3,3)`. -/
